@@ -38,23 +38,23 @@ func TestCompare(t *testing.T) {
 
 func TestClasses(t *testing.T) {
 	for src, want := range map[string]string{
-		"trueish":     "ident[prefix:true]",
-		"format":      "ident[prefix:for]",
-		"x":           "ident",
-		"a_1B":        "ident[digit+underscore+upper]",
-		"-1":          "int[neg]",
-		"007":         "int[lead0]",
-		`"é\x41"`:     "istr[esc-x+utf8-2]",
-		"`a\nb`":      "rstr[ascii+nl]",
-		"/* c */":     "blockc[ascii]",
-		"// *":        "linec[ascii+star]",
-		"==":          "p:==",
-		"if":          "kw:if",
-		"len":         "bi:len",
-		"int":         "ty:int",
-		"true":        "bool:true",
-		"\r\n":        "crlf",
-		" \t":         "sp[blank+tab]",
+		"trueish": "ident[prefix:true]",
+		"format":  "ident[prefix:for]",
+		"x":       "ident",
+		"a_1B":    "ident[digit+underscore+upper]",
+		"-1":      "int[neg]",
+		"007":     "int[lead0]",
+		`"é\x41"`: "istr[esc-x+utf8-2]",
+		"`a\nb`":  "rstr[ascii+nl]",
+		"/* c */": "blockc[ascii]",
+		"// *":    "linec[ascii+star]",
+		"==":      "p:==",
+		"if":      "kw:if",
+		"len":     "bi:len",
+		"int":     "ty:int",
+		"true":    "bool:true",
+		"\r\n":    "crlf",
+		" \t":     "sp[blank+tab]",
 	} {
 		l := reflex.Lex(src).Lexemes
 		if len(l) != 1 || fineClass(l[0]) != want {
